@@ -17,8 +17,8 @@ from vf.snapshot import snapshot_source
 
 RULE = (
     "A case is a pool of 2-3 G2 programs plus a history of 3-10 operations in one process (analyse program i; "
-    "run a drawn subset of detectors in a drawn order, possibly twice; build the function again; run a "
-    "printer). After every operation the canonical snapshot of the program touched (per-block contexts incl. "
+    "run a drawn subset of detectors in a drawn order, possibly twice; analyse several programs with one Tealer "
+    "object and run detectors over all of them; build the function again; run a printer). After every operation the canonical snapshot of the program touched (per-block contexts incl. "
     "all per-index / absolute / relative sub-contexts, ordered paths per detector, the JSON of every detector) "
     "must equal its baseline = the snapshot computed for that program alone in a fresh subprocess with "
     "PYTHONHASHSEED=0; a second fresh subprocess with another hash seed must give byte-identical output; "
@@ -49,6 +49,50 @@ def fresh_snapshot(src: str, hashseed: int) -> str:
     return out
 
 
+def multi_run(sources, detectors):
+    """one Tealer object holding several contracts, each in its own single-transaction group"""
+    from tealer.execution_context.transactions import GroupTransaction, Transaction
+    from tealer.teal.parse_functions import construct_function
+    from tealer.teal.parse_teal import parse_teal
+    from tealer.tealer import Tealer
+    from tealer.utils.teal_enums import ContractType
+
+    contracts, groups = {}, []
+    with adapter.captured():
+        try:
+            for k, src in enumerate(sources):
+                name = "c"  # same name as in the single run so that the JSON is comparable
+                teal = parse_teal(src, name)
+                fn = construct_function(teal, ["B0"], name)
+                teal.functions = {name: fn}
+                contracts[f"{name}{k}"] = teal
+                t = Transaction()
+                if teal.contract_type == ContractType.LogicSig:
+                    t.transacton_id = name
+                    t.has_logic_sig = True
+                    t.logic_sig = fn
+                else:
+                    t.application = fn
+                g = GroupTransaction()
+                g.operation_name = name
+                g.transactions = [t]
+                groups.append(g)
+            tl = Tealer(contracts, groups)
+            classes = adapter.detector_classes()
+            for n in detectors:
+                tl.register_detector(classes[n])
+            results = tl.run_detectors()
+        finally:
+            adapter.clear_caches()
+    out = [dict() for _ in sources]
+    for det, res in zip(tl.detectors, results):
+        if len(res) != len(sources):
+            raise Violation("multi-run-output-count", f"{det.NAME}: {len(res)} outputs for {len(sources)} contracts")
+        for pos, o in enumerate(res):
+            out[pos][det.NAME] = {"paths": [[b.entry_instr.line for b in p] for p in o.paths], "json": json.dumps(o.to_json(), sort_keys=False)}
+    return out
+
+
 @st.composite
 def history_case(draw, disabled=()):
     npool = draw(st.integers(2, 3))
@@ -62,6 +106,10 @@ def history_case(draw, disabled=()):
         elif k <= 7:
             dets = draw(st.lists(st.sampled_from(DETECTOR_NAMES), min_size=1, max_size=9, unique=True))
             ops.append(["detect", i, dets, draw(st.integers(1, 2))])
+        elif k == 8 and draw(st.booleans()):
+            order = draw(st.lists(st.integers(0, npool - 1), min_size=2, max_size=4))
+            dets = draw(st.lists(st.sampled_from(DETECTOR_NAMES), min_size=1, max_size=9, unique=True))
+            ops.append(["multi", order[0], order, dets])
         elif k == 8:
             ops.append(["function", i])
         else:
@@ -103,6 +151,17 @@ def check(case):
                     raise Violation("order-changes-paths", f"{n} with detectors {op[2]} x{op[3]}: paths {snap['detectors'][n]['paths']} != baseline {base[i]['detectors'][n]['paths']}\n{t}")
                 if snap["detectors"][n]["json"] != base[i]["detectors"][n]["json"]:
                     raise Violation("order-changes-json", f"{n}: JSON differs from baseline\n{t}")
+        elif op[0] == "multi":
+            # several contracts analysed by one Tealer object (as a group configuration does): the results for
+            # each contract must not depend on the contracts that come before it in the same run
+            got = multi_run([texts[j] for j in op[2]], op[3])
+            for pos, j in enumerate(op[2]):
+                for n in op[3]:
+                    if got[pos][n]["paths"] != base[j]["detectors"][n]["paths"]:
+                        raise Violation("other-contracts-change-paths", f"{n}: program {j} analysed in one run with programs {op[2]} (position {pos}): paths {got[pos][n]['paths']} != alone {base[j]['detectors'][n]['paths']}\n" + "\n---\n".join(texts[x] for x in op[2]))
+                    if got[pos][n]["json"] != base[j]["detectors"][n]["json"]:
+                        raise Violation("other-contracts-change-json", f"{n}: program {j} in a run with {op[2]}: JSON differs from the single run\n{texts[j]}")
+            analysed.update(op[2])
         elif op[0] == "function":
             from tealer.teal.parse_functions import construct_function
 
